@@ -216,6 +216,11 @@ def build_crystal(spec):
     if r is None:
         return None
     L, pos, sym = r
+    if spec.get("axperm"):
+        # relabel the axes cyclically: the same crystal in a non-standard setting (e.g. tetragonal with the 4-fold axis along a)
+        ap = [[0, 1, 2], [1, 2, 0], [2, 0, 1]][int(spec["axperm"]) % 3]
+        L = L[ap]
+        pos = pos[:, ap]
     if spec.get("perm"):
         rng = rng_from(spec["key"], 500)
         p = rng.permutation(len(sym))
@@ -248,7 +253,8 @@ keys = st.integers(0, 2**32 - 1)
 
 
 @st.composite
-def crystal_specs(draw, max_unit=12, kinds=("hall", "proto", "centred", "p1"), masses=True, rot=True, noise=False):
+def crystal_specs(draw, max_unit=12, kinds=("hall", "proto", "centred", "p1"), masses=True, rot=True, noise=False,
+                  axperm=False):
     kind = draw(st.sampled_from(kinds))
     spec = {"kind": kind, "key": draw(keys)}
     if kind == "hall":
@@ -270,6 +276,8 @@ def crystal_specs(draw, max_unit=12, kinds=("hall", "proto", "centred", "p1"), m
         spec["masses"] = draw(st.booleans())
     if noise:
         spec["noise"] = draw(st.sampled_from([0.0, 0.0, 1e-8, 2e-7]))
+    if axperm:
+        spec["axperm"] = draw(st.sampled_from([0, 0, 1, 2]))
     return spec
 
 
